@@ -814,6 +814,9 @@ pub trait DynShape: Sync + Send {
     fn from_bytes(&self, b: &[u8]) -> Result<ReadOut, FErr>;
     fn from_mut_bytes(&self, b: &mut [u8]) -> Result<ReadOut, FErr>;
     fn from_wrapped_bytes(&self, b: &[u8]) -> Result<ReadOut, FErr>;
+    /// from_bytes / from_mut_bytes without touching the result (verdict only)
+    fn from_bytes_only(&self, b: &[u8]) -> Result<(), FErr>;
+    fn from_mut_bytes_only(&self, b: &mut [u8]) -> Result<(), FErr>;
     /// `T::new_in_place(bytes, emplacer(v))`, then run the session on the result.
     fn new_in_place(&self, b: &mut [u8], v: &Value, route: &[u8], f: Session) -> Result<(), FErr>;
     fn default_in_place(&self, b: &mut [u8], f: Session) -> Option<Result<(), FErr>>;
@@ -858,6 +861,12 @@ impl<T: Shape + ?Sized> DynShape for Of<T> {
         let base = b.as_ptr() as usize;
         let x = T::from_mut_bytes(b)?;
         Ok(read_out(x, base))
+    }
+    fn from_bytes_only(&self, b: &[u8]) -> Result<(), FErr> {
+        T::from_bytes(b).map(|_| ()).map_err(FErr::from)
+    }
+    fn from_mut_bytes_only(&self, b: &mut [u8]) -> Result<(), FErr> {
+        T::from_mut_bytes(b).map(|_| ()).map_err(FErr::from)
     }
     fn from_wrapped_bytes(&self, b: &[u8]) -> Result<ReadOut, FErr> {
         let w = FlatWrap::<T, &[u8]>::from_wrapped_bytes(b)?;
